@@ -74,32 +74,70 @@ def run(ctx, rep):
             rep.missing("R11.1", fn)
             continue
         out = ev.collect_ifs(fn, [Obj("W", 0, adt)])
-        conds = [(ckey(c["cond"]), c) for c in out if "cond" in c and "is_empty" not in ckey(c["cond"])]
-        keys = [k for k, _ in conds]
+        # (1) the atomic tests of the function, each in its positive (error) polarity — `reserved == 0` in an
+        # if/else with the error in the else branch is the same atom as `reserved != 0`
+        from ..thir import cnot as _cnot
+        def positive(c):
+            # the atom, whichever way round it is tested (`any(bits)` / `Ne(..)` form); which outcome is the error
+            # is decided by the truth table below
+            k = ckey(c)
+            if k.startswith("none(") or k.startswith("Eq("):
+                return ckey(_cnot(c))
+            return k
+        conds = [(positive(c["cond"]), c) for c in out if "cond" in c and "is_empty" not in ckey(c["cond"]) and ckey(c["cond"]) not in ("true", "false")]
+        keys = []
+        for k, _ in conds:
+            if k not in keys:
+                keys.append(k)
         k_id = ckey(oracle_cond({"cmp": "Ne", "bits": [79, 72], "const": o["id"]}, "W"))
         k_res = ckey(oracle_cond({"any": o["reserved"]}, "W"))
         want = [k_id, k_res]
         names = ["id != %#x" % o["id"], "reserved bits %s set" % o["reserved"]]
+        witness = [("id", lambda on, o=o: [(72, 8, (o["id"] ^ 0x01) if on else o["id"])]),
+                   ("reserved", lambda on, o=o: [(o["reserved"][-1][1], 1, 1 if on else 0)])]
         if o.get("extra_error"):
-            want.append(ckey(oracle_cond(o["extra_error"], "W")))
+            xe = o["extra_error"]
+            want.append(positive(oracle_cond(xe, "W")))
             names.append(o["extra_name"])
+            if "none" in xe:
+                # error when all of these bits are clear
+                xb = xe["none"][0]
+                witness.append(("extra", lambda on, xb=xb: [(xb[1], 1, 0 if on else 1)]))
+            else:
+                xb = xe.get("bits") or xe["any"][0]
+                witness.append(("extra", lambda on, xb=xb: [(xb[1], 1, 1 if on else 0)]))
         for k, nm in zip(want, names):
             rep.check(k in keys, "R11.1", "R11.1|%s|%s" % (name, nm), "%s: error iff %s ⇔ %s" % (name, nm, k), fn,
                       "%s sanity check: documented condition '%s' (normal form %s) not found; conditions present: %s" % (name, nm, k, keys))
         for k in keys:
             if k not in want:
                 rep.bad("R11.1", "R11.1|%s|extra|%s" % (name, k), "%s sanity check tests an undocumented/altered condition %s" % (name, k), fn)
-        # id test first with early return (other conditions are only evaluated for the right ID)
-        if keys and keys[0] == k_id:
-            tb = ev.tb(fn)
-            early = False
-            for i, n in tb.walk():
-                if n["k"] == "If":
-                    early = any(x["k"] == "Return" for _, x in tb.walk(n["then"]))
-                    break
-            rep.check(early, "R11.1", "R11.1|%s|id_early_return" % name, "wrong ID returns the ID error immediately", fn)
-        else:
-            rep.bad("R11.1", "R11.1|%s|id_first" % name, "the ID comparison is not the first test of %s" % fn, fn)
+        # (2) how the atoms are combined: the function is evaluated on one witness word for each truth assignment of
+        # the atoms (they read disjoint bits) — Err exactly when at least one atom holds.  Together with (1) this
+        # fixes the verdict for every one of the 2^80 words.
+        wrong = []
+        for mask in range(1 << len(witness)):
+            ev.assume = {}
+            ev.assume_bits("W", 0, 80, 0)
+            on_any = False
+            for j, (wn, wf) in enumerate(witness):
+                on = bool(mask >> j & 1)
+                on_any = on_any or on
+                for lo_, w_, v_ in wf(on):
+                    ev.assume_bits("W", lo_, w_, v_)
+            ev.strings = True
+            try:
+                r = vkey(ev.call_fn(fn, [Obj("W", 0, adt)]))
+            except Unsupported as e:
+                r = "unevaluable %s" % e
+            finally:
+                ev.assume = {}
+                ev.strings = False
+            verdict = "Err" if r.startswith("Result::Err(") else ("Ok" if r.startswith("Result::Ok(") else r[:60])
+            if verdict != ("Err" if on_any else "Ok"):
+                wrong.append(({wn: bool(mask >> j & 1) for j, (wn, _) in enumerate(witness)}, verdict))
+        rep.check(not wrong, "R11.1", "R11.1|%s|combination" % name, "%s: Err exactly when at least one documented condition holds (%d assignments of the atoms evaluated)" % (name, 1 << len(witness)), fn,
+                  "%s sanity check combines its conditions wrongly: %s" % (name, wrong[:4]))
         # accessor fields denote the documented bits
         for fld, (hi, lo) in o["fields"].items():
             acc = "%s::%s" % (adt, fld)
